@@ -1080,6 +1080,92 @@ def rule_freeze_consistency(rep, repo, tier):
     rep.ok("R9")
 
 
+def rule_placeholders(rep, repo):
+  """R15: the export pairs get_quantizers() with get_weights() BY POSITION
+  (zip) and skips entries that are None: a layer whose quantizers are only
+  partly configured must keep a None placeholder for every unset one.  Each
+  exported layer class with its own get_quantizers() is built by its own
+  constructor with every quantizer set, and then with one quantizer set at
+  a time: the list has the same length both times and the set quantizer is
+  at the position it had in the full list."""
+  from .c13 import layer_pe, exported_classes
+  from ..pe import Obj, Unsupported
+  qmod = repo.module("qkeras.quantizers")
+  n = 0
+  skipped = {}
+  for name, ci in sorted(exported_classes(repo).items()):
+    owner, fn = ci.find_method("get_quantizers")
+    if fn is None or name in ("QBidirectional",):
+      continue
+    params = [p for p, _ in ci.init_params()[0]]
+    qparams = [p for p in params if p.endswith("_quantizer") or p in (
+        "depthwise_activation", "pointwise_activation")]
+    if name == "QBatchNormalization":
+      qparams = [p for p in qparams if p != "inverse_quantizer"]
+    if len(qparams) < 2:
+      continue
+    unit = "%s::%s.get_quantizers" % (owner.module.relpath, owner.name)
+    loc = owner.module.loc(fn)
+    base = {}
+    for p_, v_ in (("units", 4), ("filters", 8), ("kernel_size", 3),
+                   ("pool_size", 2)):
+      if p_ in params:
+        base[p_] = v_
+
+    def build(subset):
+      pe = layer_pe(repo, ci, name)
+      kw = dict(base)
+      objs = {}
+      for i, p in enumerate(qparams):
+        if p in subset:
+          objs[p] = pe.call(pe.lookup_global("quantized_bits", qmod), [],
+                            dict(bits=3 + i, integer=1, alpha=1))
+          kw[p] = objs[p]
+        else:
+          kw[p] = None
+      layer = pe.call(ClassRef(ci), [], kw)
+      got = pe.call(pe.getattr(layer, "get_quantizers"), [], {})
+      return objs, got
+    try:
+      objs, full = build(set(qparams))
+    except (PyRaise, Unsupported) as e:
+      skipped[name] = str(e)[:100]
+      continue
+    if not isinstance(full, list):
+      continue
+    pos = {}
+    for p, o in objs.items():
+      for i, g in enumerate(full):
+        if g is o:
+          pos[p] = i
+    rep.unit(unit)
+    for p in qparams:
+      if p not in pos:
+        continue      # the layer wraps or replaces this one (not positional)
+      try:
+        objs1, got = build({p})
+      except (PyRaise, Unsupported) as e:
+        skipped["%s(%s only)" % (name, p)] = str(e)[:100]
+        continue
+      n += 1
+      ok = isinstance(got, list) and len(got) == len(full) and \
+          got[pos[p]] is objs1[p] and all(
+              g is None or g is objs1[p] or not any(
+                  g is o for o in objs1.values()) for g in got)
+      where = [i for i, g in enumerate(got) if g is objs1[p]] \
+          if isinstance(got, list) else None
+      rep.check(ok, "R15", unit, "placeholder-dropped",
+                "%s with only %s set: get_quantizers() has %s entries and "
+                "the quantizer at position %s; with every quantizer set it "
+                "has %d entries and that quantizer at position %d - the "
+                "export pairs the list with get_weights() by position" % (
+                    name, p, len(got) if isinstance(got, list) else got,
+                    where, len(full), pos[p]), loc=loc,
+                instance="%s(%s only)" % (name, p))
+  rep.extra["placeholder_lists_not_interpretable"] = skipped
+  return n
+
+
 def rule_idempotent(rep, repo, tier):
   """R11: 'a second export changes nothing' needs every weight quantizer
   whose scale does not depend on the data to reproduce its own codes:
@@ -1426,6 +1512,8 @@ def run(rep, repo, tier):
   rep.require_instances("R10", 10)
   rule_idempotent(rep, repo, tier)
   rep.require_instances("R11", 30)
+  rule_placeholders(rep, repo)
+  rep.require_instances("R15", 20)
   rep.require_instances("R9", 25)
   rep.require_instances("R8", 2)
   rep.require_instances("R7", 30)
